@@ -8,6 +8,7 @@ wholly empty chunks agree across seams.  Disjoint rasters => all fill, no except
 """
 from __future__ import annotations
 
+import math
 import random
 
 import numpy as np
@@ -166,6 +167,17 @@ def one(mon: Monitor, rng: random.Random) -> None:
     mon.obs["pixels_checked_fill_rule"] += int(far_out.sum())
     # pixels whose source location is well inside the source image: a chunk that lost a source block shows up as fill where the whole-array result has data
     deep = fin & (px > 2) & (px < W - 2) & (py > 2) & (py < H - 2)
+    if resampling != "nearest":
+        # a wider kernel reaches source pixels beyond the footprint of the destination chunk that is being computed (the statement promises nothing there):
+        # judge only destination pixels whose kernel stays inside their own chunk's footprint
+        with np.errstate(all="ignore"):
+            gj = np.hypot(np.gradient(px, axis=1), np.gradient(py, axis=1)) if nx > 1 else np.full((ny, nx), np.inf)
+            gi = np.hypot(np.gradient(px, axis=0), np.gradient(py, axis=0)) if ny > 1 else np.full((ny, nx), np.inf)
+        smin = np.nanmin(np.where(np.isfinite(gj) & np.isfinite(gi), np.minimum(gj, gi), np.nan)) if (np.isfinite(gj) & np.isfinite(gi)).any() else 0.0
+        margin = 3 + int(math.ceil(3.0 / smin)) if smin > 1e-6 else 10**9
+        di = np.array([min(i % dch[0], min(dch[0], ny - (i // dch[0]) * dch[0]) - 1 - i % dch[0]) for i in range(ny)])[:, None]
+        dj = np.array([min(j % dch[1], min(dch[1], nx - (j // dch[1]) * dch[1]) - 1 - j % dch[1]) for j in range(nx)])[None, :]
+        deep = deep & (np.minimum(di, dj) >= margin)
     if deep.any():
         md = np.broadcast_to(deep, a.shape)
         fa, fb = isfill(a[md]), isfill(b[md])
